@@ -41,7 +41,10 @@ def run_property(prop, tier, seed, obs, info, workers=None, solver_timeout_ms=No
     exit_code = 0
     harness_errors = []
 
-    res = H.run_obligations(obs, seed=seed, workers=workers, solver_timeout_ms=solver_timeout_ms)
+    # overall budget of the exploration phase (on the unchanged tree every check ends far below it); obligations not
+    # explored by then are reported inconclusive
+    check_deadline = time.time() + (900 if tier == "quick" else 4 * 3600)
+    res = H.run_obligations(obs, seed=seed, workers=workers, solver_timeout_ms=solver_timeout_ms, deadline=check_deadline)
     obmap = {o.name: o for o in obs}
     try:
         os.makedirs(os.path.join(VERIF, ".cache"), exist_ok=True)
